@@ -59,7 +59,7 @@ UExit(e) ==
          want    == (IF Checked THEN 1 ELSE 0) + (IF proceed THEN 1 ELSE 0) IN
      /\ reqs = want
      /\ (e.code = 0) = (proceed /\ a.script.print = "ok")
-     /\ e.code \in {0, 1}
+     /\ e.code \in 0..255                          \* a normal exit (not a signal / timeout of the harness)
   /\ a' = None /\ UNCHANGED reqs
 (* ---- the single-exchange commands (status, cancel-job, get-job, purge-jobs, get-all-jobs) ---- *)
 OStart(e) == a' = e /\ reqs' = 0
@@ -76,7 +76,7 @@ OReq(e) ==
         /\ uriV.k = "Uri" /\ IsCanonOf(e.puri, a.target)
         /\ e.paylen = 0
   /\ reqs' = 1 /\ UNCHANGED a
-OExit(e) == /\ a # None /\ reqs = 1 /\ (e.code = 0) = (a.reply = "ok") /\ e.code \in {0, 1}
+OExit(e) == /\ a # None /\ reqs = 1 /\ (e.code = 0) = (a.reply = "ok") /\ e.code \in 0..255
             /\ a' = None /\ UNCHANGED reqs
 
 Step(e) == CASE e.ev = "ostart" -> OStart(e) [] e.ev = "oreq" -> OReq(e) [] e.ev = "oexit" -> OExit(e)
